@@ -71,6 +71,8 @@ pub struct AppLog {
     pub last_progress_ns: u64,
     pub last_change_ns: u64,
     pub accepted: u64,
+    /// the run was stopped by the harness' datagram budget
+    pub over_budget: bool,
 }
 
 #[derive(Clone, Debug, Default, Serialize)]
@@ -597,12 +599,14 @@ pub fn execute(plan: &Plan) -> RunOut {
                     let grace_ns = (2 * (ctx.plan.cfg.base_delay_us + ctx.plan.cfg.jitter_us) + 50_000) * 1000;
                     // vanish plans contain application pauses of up to 40 s on top of the 30 s idle timeout;
                     // all other families pause for at most 1 s and black out for at most 3 s
-                    let quiet_limit_ns: u64 = if ctx.plan.family == "vanish" { 150_000_000_000 } else { 75_000_000_000 };
+                    let quiet_limit_ns: u64 = if ctx.plan.family == "vanish" { 150_000_000_000 } else { 50_000_000_000 };
                     let mut cap_ns = ctx.plan.cfg.cap_s * 1_000_000_000;
                     let hard_ns = cap_ns * 12;
                     let mut extended = 0u32;
                     let mut step_us = 500u64;
                     let mut capped = false;
+                    let mut over_budget = false;
+                    let debug = std::env::var("VERIF_DEBUG").is_ok();
                     loop {
                         bach::time::sleep(Duration::from_micros(step_us)).await;
                         step_us = (step_us * 2).min(1_000_000);
@@ -615,9 +619,20 @@ pub fn execute(plan: &Plan) -> RunOut {
                             break;
                         }
                         // hang detector: tasks pending and neither application progress nor any task
-                        // start/finish for 75 s (150 s in the vanish family) of virtual time, i.e.
-                        // at least 2.5 x the stream idle timeout, or the absolute cap
+                        // start/finish for 50 s (150 s in the vanish family) of virtual time, i.e.
+                        // well beyond the 30 s stream idle timeout, or the absolute cap
                         let quiet = t.saturating_sub(last_progress.max(last_change));
+                        if debug {
+                            let l = ctx.link.lock().unwrap();
+                            eprintln!("supervisor: t={} ms pending={} quiet={} ms datagrams={} bytes={}", t / 1_000_000, pending, quiet / 1_000_000, l.datagrams, l.bytes_moved);
+                        }
+                        if ctx.link.lock().unwrap().over_budget {
+                            // resource bound of the harness; the oracle decides from `quiet_ns`
+                            // whether this is a hang (no progress for longer than the idle timeout)
+                            over_budget = true;
+                            capped = pending > 0 && quiet > IDLE_TIMEOUT_NS + 5_000_000_000;
+                            break;
+                        }
                         if pending > 0 && quiet > quiet_limit_ns {
                             capped = true;
                             break;
@@ -659,7 +674,8 @@ pub fn execute(plan: &Plan) -> RunOut {
                         read_counters(&sv.subscriber(), &mut counters);
                     }
                     end.server_handshake_requests = s.server_hs_requests.load(Ordering::Relaxed);
-                    let app_snapshot = ctx.app.lock().unwrap().clone();
+                    let mut app_snapshot = ctx.app.lock().unwrap().clone();
+                    app_snapshot.over_budget = over_budget;
                     *result.lock().unwrap() = (end, now_ns(), capped, extended, counters, trace::take(), app_snapshot);
                 }
                 .primary()
